@@ -1326,6 +1326,11 @@ theorem step_cohD (cfg : Cfg) (n : Node) (D : List Nat) (op : Op) (hc : CohD n D
       · exact cohD_congr triv triv triv triv triv triv hc
       · exact hc
     | nop => exact hc
+    | sdrop sid =>
+      simp only [step, isSessOp, dirtyStep]
+      split
+      · exact hc
+      · exact cohD_congr triv triv triv triv triv triv hc
     | coldreset =>
       simp only [step, isSessOp, dirtyStep, ok]
       exact cohD_of_agree [] ⟨fun i _ => by simp [getFabric, kvF], by simp [kvNets]⟩
